@@ -416,6 +416,115 @@ def rne_form(name, tiers):
                     'cdofd_k qd_k; f_l = cinr_l cdd_l + cd_l x* (cinr_l cd_l); bias_k = cdof_k . sum over the subtree of f_l', run, backend='ring', tiers=tiers, budget=900)
 
 
+class _Tok:
+  """an uninterpreted stage result: (stage, field, the arguments the stage was applied to)"""
+  __slots__ = ('stage', 'field', 'args')
+
+  def __init__(self, stage, field, args):
+    self.stage, self.field, self.args = stage, field, args
+
+  def __repr__(self):
+    return '%s.%s' % (self.stage, self.field)
+
+
+def cache_coherent(fn, iters, tiers):
+  """the generalized State caches position-dependent quantities (x, xd, cinr, cdof, ..., mass_mx, mass_mx_inv, con_jac, ...).  The REAL body of pipeline.step / pipeline.init is executed
+  with every stage callee replaced by an uninterpreted function (its frame -- which State fields it rewrites -- is read off one concrete run of the real callee); the postcondition is on
+  the provenance of the returned fields: every cached field is the stage function applied to the RETURNED (q, qd) and to the returned upstream caches, none is carried over"""
+  def run():
+    import dataclasses
+    from unittest import mock
+    from brax.generalized import pipeline, mass, dynamics, constraint, integrator
+    from brax.generalized.base import State
+    from brax import kinematics, actuator
+    sys = _forest_sys([-1, 0], '11').replace(matrix_inv_iterations=iters)
+    fields = [f.name for f in dataclasses.fields(State)]
+    with jax.enable_x64(False):
+      c0 = pipeline.init(sys, sys.init_q, jp.zeros(sys.qd_size()))
+      frame = {}
+      for nm, mod, call in (('integrate', integrator, lambda: integrator.integrate(sys, c0)), ('transform_com', dynamics, lambda: dynamics.transform_com(sys, c0)),
+                            ('matrix_inv', mass, lambda: mass.matrix_inv(sys, c0, iters)), ('jacobian', constraint, lambda: constraint.jacobian(sys, c0))):
+        o = call()
+        frame[nm] = [f for f in fields if getattr(o, f) is not getattr(c0, f)]
+    snap = lambda st: {f: getattr(st, f) for f in fields}
+
+    def st_stage(nm):
+      def stub(sys_, state, *a, **k):
+        s = snap(state)
+        return state.replace(**{f: _Tok(nm, f, s) for f in frame[nm]})
+      return stub
+
+    def kin(sys_, q, qd):
+      return _Tok('kinematics.forward', 'x', {'q': q, 'qd': qd}), _Tok('kinematics.forward', 'xd', {'q': q, 'qd': qd})
+    patches = [mock.patch.object(integrator, 'integrate', st_stage('integrate')), mock.patch.object(dynamics, 'transform_com', st_stage('transform_com')),
+               mock.patch.object(mass, 'matrix_inv', st_stage('matrix_inv')), mock.patch.object(constraint, 'jacobian', st_stage('jacobian')),
+               mock.patch.object(kinematics, 'forward', kin),
+               mock.patch.object(actuator, 'to_tau', lambda sys_, act, q, qd: _Tok('to_tau', 'tau', {'act': act, 'q': q, 'qd': qd})),
+               mock.patch.object(dynamics, 'forward', lambda sys_, state, tau: _Tok('dynamics.forward', 'qf_smooth', dict(snap(state), tau=tau))),
+               mock.patch.object(constraint, 'force', lambda sys_, state: _Tok('constraint.force', 'qf_constraint', snap(state)))]
+    for p in patches:
+      p.start()
+    try:
+      if fn == 'step':
+        s0 = State(**{f: _Tok('in', f, None) for f in fields})
+        out = pipeline.step(sys, s0, _Tok('in', 'act', None))
+      else:
+        with mock.patch.object(State, 'init', classmethod(lambda cls, q, qd, x, xd: State(**dict({f: _Tok('State.init', f, None) for f in fields}, q=q, qd=qd, x=x, xd=xd)))):
+          out = pipeline.init(sys, _Tok('in', 'q', None), _Tok('in', 'qd', None))
+    finally:
+      for p in patches:
+        p.stop()
+    bad = []
+    P, K, T = ['q', 'qd'], ['x', 'xd'], frame['transform_com']
+    for f in K:
+      v = getattr(out, f)
+      if not (isinstance(v, _Tok) and v.stage == 'kinematics.forward' and v.field == f and v.args['q'] is out.q and v.args['qd'] is out.qd):
+        bad.append('%s is %r, not kinematics.forward(returned q, returned qd)' % (f, v))
+    for nm, up in (('transform_com', P + K), ('matrix_inv', P + K + T), ('jacobian', P + K + T)):
+      for f in frame[nm]:
+        v = getattr(out, f)
+        if not (isinstance(v, _Tok) and v.stage == nm and v.field == f):
+          bad.append('%s is %r (carried over), not recomputed by %s' % (f, v, nm))
+          continue
+        stale = [u for u in up if v.args[u] is not getattr(out, u)]
+        if stale:
+          bad.append('%s is %s applied to a state whose %s are not the returned ones' % (f, nm, stale))
+    if fn == 'step':
+      v = out.q
+      if not (isinstance(v, _Tok) and v.stage == 'integrate'):
+        bad.append('q is %r, not produced by integrator.integrate' % (v,))
+      else:
+        qs, qc = v.args['qf_smooth'], v.args['qf_constraint']
+        if not (isinstance(qs, _Tok) and qs.stage == 'dynamics.forward' and all(qs.args[f].stage == 'in' for f in fields if isinstance(qs.args[f], _Tok) and f != 'qf_smooth')
+                and isinstance(qs.args['tau'], _Tok) and qs.args['tau'].stage == 'to_tau'):
+          bad.append('the integrated smooth force is %r, not dynamics.forward(input state, to_tau(act, q, qd))' % (qs,))
+        if not (isinstance(qc, _Tok) and qc.stage == 'constraint.force' and qc.args['qf_smooth'] is qs):
+          bad.append('the integrated constraint force is %r, not constraint.force of the state carrying the smooth force' % (qc,))
+    if bad:
+      return Result(REFUTED, '; '.join(bad)[:600], witness={'matrix_inv_iterations': iters, 'violations': bad[:8]}, replay=_native_cache(fn, iters))
+    return Result(PROVED, 'every cached field of the State returned by pipeline.%s is recomputed from the returned (q, qd) and the returned upstream caches (stage frames: %s)' % (fn, frame),
+                  stats={'fields': len(fields)})
+  return Obligation('C02/generalized.pipeline.%s/cache_coherent[iters=%d]' % (fn, iters), 'brax.generalized.pipeline:%s' % fn,
+                    'matrix_inv_iterations = %d: in the returned State, x, xd = kinematics.forward(q, qd); the centre-of-mass caches are transform_com of that state; mass_mx / mass_mx_inv and the '
+                    'constraint jacobian caches are mass.matrix_inv / constraint.jacobian of the state carrying exactly those -- no cached field is carried over from the previous state; '
+                    '(step) the integrated forces are dynamics.forward and constraint.force of the input state' % iters, run, backend='path', tiers=tiers, budget=300)
+
+
+def _native_cache(fn, iters):
+  """native: after two real steps the cached mass matrix must be the mass matrix of the returned configuration"""
+  from brax.generalized import pipeline, mass
+  from brax.io import mjcf
+  from verif.contracts import C04
+  with jax.enable_x64(True):
+    sys = mjcf.loads(C04.tree_xml(C04.SHAPES['f-(h,s)'])).replace(matrix_inv_iterations=iters)
+    st = pipeline.init(sys, sys.init_q, jp.arange(1, sys.qd_size() + 1) * 0.3)
+    if fn == 'step':
+      for _ in range(3):
+        st = jax.jit(pipeline.step)(sys, st, jp.zeros(sys.act_size()))
+    err = float(jp.abs(st.mass_mx - mass.matrix(sys, st)).max())
+  return {'reproduced': err > 1e-9, 'max |cached mass_mx - mass.matrix(returned state)|': err, 'matrix_inv_iterations': iters}
+
+
 def passive_forward():
   def body(A):
     from brax.generalized import dynamics
@@ -563,6 +672,7 @@ def obligations(tier):
   obs.append(crb_history(Q))
   obs += [cinr('h', 'free', Q), cinr('sh', 'root', Q), cinr('', 'root', Th), cinr('hs', 'free', Th)]
   obs += [passive_forward(), integrate_step(), integrate_free(), bounded(tier)]
+  obs += [cache_coherent('step', 0, Q), cache_coherent('step', 10, Q), cache_coherent('init', 0, Q), cache_coherent('init', 10, Th)]
   # "total smooth joint force including actuation": the actuation term is C11's contract; the clause that matters for floating-base models (q index != qd index) is proved here too
   from verif.contracts import C11
   for qd_id, off in (([0, 2], [1, 1]), ([1, 1], [0, 1])):
